@@ -132,6 +132,30 @@ ROUND_TEXT = {
          "continuing to compute with the copies; VERY LONG chains of one cheap operation (10 000 appends, 10 000 in-place products) "
          "where something grows or drifts; results whose dtype, memory order or writability differs from the usual one so that a "
          "later NumPy call by the USER (np.linalg.inv, np.sum(axis=...), in-place +=) goes wrong."),
+    13: ("This is a THIRTEENTH round.  Assume that a very strong randomised differential checker of this property already exists.  It "
+         "draws every kind of argument the statement names: all classes, call forms, container forms (list, tuple, namedtuple, 1-D, "
+         "row, column, frozen / strided / Fortran arrays), element types (int8 .. int64, unsigned, float16 / 32 / 64, bool, object), "
+         "scalars as Python / NumPy numbers of every width, on / off options as True / 1 / numpy.True_, options and pairs of options, "
+         "both units, special angles with offsets drawn continuously between 1e-12 and 1e-1 on either side, exact signed permutation "
+         "matrices, axis-aligned / nearly-unit / tiny axes, zero, negative-zero and 1e-20 translations, nearly equal operands, values "
+         "inside one object that differ only in the 9th decimal.  Objects hold 0, 1..5, 8..100, 127..129, 255..257, 300 and 2000..2500 "
+         "values of mixed kinds; vectors of s / theta / points have up to 1000 elements.  Every result is compared with an independent "
+         "high-precision reference; operands, receivers and all earlier results are re-examined bit for bit (flags included) after "
+         "every step and after later list mutations; results are written into by the caller and the call is repeated (a shared "
+         "constant handed out as a result is seen); calls are made from four threads at once; every accessor is evaluated again "
+         "after the object was changed in place, after an array that was accepted once was refilled, and on an object that reached "
+         "the same values through another history; symbolic and numeric calls are interleaved; every call is made twice, also under "
+         "python -O, also under non-default NumPy print options.  NOT wanted (declared out of scope): anything that shows only under "
+         "np.seterr(...='raise') or with warnings turned into errors; results that are views of the receiver's own storage; user "
+         "subclasses of the library's classes; NaN / inf inputs; drift below 1e-10 after 10 000 operations.  Find what such a checker "
+         "STILL cannot see, and say in your README why.  Directions that may help: a slip that needs TWO rare things at once that the "
+         "checker draws independently (a particular option together with a particular kind of value together with a particular "
+         "container); dependence on a value PATTERN rather than a value kind (all elements equal, a symmetric matrix, a sorted or "
+         "palindromic sequence, an integer-valued float, components in a fixed ratio, a vector orthogonal or parallel to another "
+         "argument); thresholds in a derived quantity the checker does not sample densely (a product or ratio of two arguments, the "
+         "angle BETWEEN two arguments, the distance between two lines, t.w of a twist); the error contract (which exception, and that "
+         "the object is unchanged after a refused mutation); results that are right but of another documented type or length in "
+         "one arm; the interplay of two methods of one object called in a particular order."),
 }
 
 HUNT_TEXT = '''ALSO, BEFORE the mutants (about a third of your effort): hunt for inputs for which the UNMODIFIED tree already violates the property.  Read the statement and the quantifier literally and probe its corners systematically with small scripts: every class and call form it names, the extremes of the stated ranges, exact special values, multi-valued objects, every option value, both units, documented aliases, sequences of operations on one object.  Write what you find to {wt}/bughunt.md: for each violation a two-line reproduction, the value obtained and the value the property requires; if you find none, list briefly what you covered.  Do not fix anything.
